@@ -239,8 +239,10 @@ def run(ctx: Ctx) -> None:
         "iok_autolink, iok_htmlInline, iok_entity, xmini_total; their regular expressions are translated from the live pattern objects, tie `inlinex` + `rx`). "
         "and with the link rule (Props/C01i.lean link_total: skipToken's memo, label/destination/title parsing, references, nested tokenize, delimiter scopes; tie `inlinel`) "
         "and with the image rule (Props/C01j.lean image_total: the nested run of the whole inline parser on the description; eleven of twelve inline rules; tie `inlinei`). "
-        "For all other rules (table, reference; "
-        "linkify) the contracts are monitored on every call on the implementation, not proved",
+        "and with html_block, lheading (Props/C01h.lean m_total) and the table rule (Props/C01l.lean ruleOK_table, table_silent_ok under SilentInertE, "
+        "tChain_ok, t_total: ten of eleven block rules; Props/C01k/m full_total, fullT_total end to end; tie `fullparset`). "
+        "For the reference rule everything but the upper bound of K3 is proved (Props/C16b); for it and for linkify the contracts are "
+        "monitored on every call on the implementation",
         "renderer totality follows from structural recursion on tokens in the renderer model (C04); CPython's real stack "
         "limit, memory and `re` engine time are not exhibited by the model: covered by the per-input time limit and the deep-"
         "nesting probes",
